@@ -32,8 +32,10 @@ S = "antismash/common/secmet/"
 OPAQUE_TYPES = ("gene", "CDS", "CDS_motif", "aSDomain", "PFAM_domain", "aSModule", "source")
 BASE_KEYS = ("note", "tool", "codon_start")
 KF_ORDER = "KF-C10-inconsistent-area-order"
-KF_PREPEPTIDE = "KF-C10-reverse-prepeptide-location"
+KF_PREPEPTIDE = "KF-C10-prepeptide-location-parts"
 KF_FUNCTION = "KF-C10-gene-function-colon"
+KF_PRE_SEQUENCE = "KF-C10-prepeptide-long-sequence"
+KF_PRECISION = "KF-C10-number-precision"
 WORKERS = max(2, min(8, (os.cpu_count() or 4) // 2))
 
 
@@ -151,6 +153,37 @@ def dump_feat(feature: Any, opaque: bool = False) -> Dict[str, Any]:
     return {"loc": loc_json(feature.location), "type": feature.type,
             "notes": list(feature.notes), "quals": qlist(quals),
             "byAS": bool(feature.created_by_antismash), "codon": feature._original_codon_start}
+
+
+def dump_meta(rec: Any) -> Dict[str, Any]:
+    """what the record carries besides sequence and features, as it is handed to the writers"""
+    bio = rec.to_biopython()
+    annotations: Dict[str, Any] = {}
+    for key, value in bio.annotations.items():
+        if key == "references":
+            value = [sorted((k, [str(x) for x in v] if k == "location" else v) for k, v in ref.__dict__.items()) for ref in value]
+        annotations[key] = value
+    return {"id": bio.id, "name": bio.name, "description": bio.description, "dbxrefs": list(bio.dbxrefs),
+            "annotations": annotations, "letter_annotations": dict(bio.letter_annotations),
+            "transl_table": rec.transl_table}
+
+
+def meta_diff(before: Dict[str, Any], after: Dict[str, Any], textual: bool) -> str:
+    """'' when the record-level data is unchanged; the GenBank parser adds annotations of its own (accessions,
+    sequence_version, data_file_division, …): on that path every key the record had must come back unchanged"""
+    out = []
+    for key in ("id", "name", "description", "dbxrefs", "letter_annotations", "transl_table"):
+        if before[key] != after[key]:
+            out.append(f"{key}: {before[key]!r} -> {after[key]!r}")
+    keys = set(before["annotations"]) | (set() if textual else set(after["annotations"]))
+    for key in sorted(keys):
+        a, b = before["annotations"].get(key), after["annotations"].get(key)
+        if key == "references":
+            # the JSON form always has the key: no references and an empty list of them are the same thing
+            a, b = a or [], b or []
+        if a != b:
+            out.append(f"annotation {key}: {a!r} -> {b!r}")
+    return "; ".join(out)
 
 
 def dump_side(area: Any) -> Any:
@@ -296,12 +329,24 @@ def build_record(case: Dict[str, Any]) -> Any:
     n = case["len"]
     srng = random.Random(n)
     seq = Seq("".join(srng.choice("ACGT") for _ in range(n)))
-    bio = SeqRecord(seq, id="REC1", name="REC1", description="generated record")
+    meta = case.get("meta", {})
+    bio = SeqRecord(seq, id="REC1", name=meta.get("name", "REC1"), description=meta.get("description", "generated record"),
+                    dbxrefs=list(meta.get("dbxrefs", [])))
     bio.annotations["topology"] = "circular" if case["circ"] else "linear"
     bio.annotations["molecule_type"] = "DNA"
     bio.annotations["source"] = "Streptomyces generatus"
     bio.annotations["organism"] = "Streptomyces generatus"
     bio.annotations["date"] = "01-JAN-2000"
+    for key, value in meta.get("annotations", []):
+        bio.annotations[key] = list(value) if isinstance(value, list) else value
+    if meta.get("references"):
+        from Bio.SeqFeature import Reference
+        bio.annotations["references"] = []
+        for lo, hi, authors, title, journal, pubmed in meta["references"]:
+            ref = Reference()
+            ref.location = [FeatureLocation(lo, hi)]
+            ref.authors, ref.title, ref.journal, ref.pubmed_id = authors, title, journal, pubmed
+            bio.annotations["references"].append(ref)
     for f in case.get("input", []):
         bio.features.append(SeqFeature(_bio_location(f["loc"]), type=f["type"],
                                        qualifiers={k: list(v) for k, v in f["quals"]}))
@@ -465,6 +510,7 @@ class C10(Property):
         (S + "features/pfam_domain.py", "PFAMDomain.to_biopython"), (S + "features/pfam_domain.py", "PFAMDomain.from_biopython"),
         (S + "features/cds_motif.py", "CDSMotif.from_biopython"),
         (S + "features/prepeptide.py", "Prepeptide.to_biopython"), (S + "features/prepeptide.py", "Prepeptide.from_biopython"),
+        (S + "features/prepeptide.py", "_combine_sections"),   # exists once fixes/D107 is applied ("missing" before)
         (S + "features/module.py", "Module.to_biopython"), (S + "features/module.py", "Module.from_biopython"),
         (S + "features/cds_feature.py", "CDSFeature.to_biopython"), (S + "features/cds_feature.py", "CDSFeature.from_biopython"),
         (S + "features/gene.py", "Gene.to_biopython"), (S + "features/gene.py", "Gene.from_biopython"),
@@ -484,14 +530,28 @@ class C10(Property):
             "prepeptides (leader/core/tail) incl. on CDS with MAKER-style locus tags long enough to be wrapped; "
             "order(...) locations on genes, CDS and misc features; each case runs the real GenBank text and results-JSON "
             "round trips and compares, besides the Lean views, an attribute-by-attribute dump (every slot of every "
-            "non-area feature, location operator included) of the original and both re-read records; non-trivial = at "
-            "least one area or annotated CDS; distinct by canonical input")
+            "non-area feature, location operator included) of the original and both re-read records, and the record's own "
+            "data (name, description, dbxrefs, annotations incl. references / taxonomy / keywords / comment, letter "
+            "annotations, translation table); origin-spanning and reverse-strand prepeptides; plus, outside records: "
+            "every leader/tail split of eight gene shapes on both strands through the real Prepeptide class, "
+            "_parse_format / gene function / sec_met texts (rendered with awkward values, damaged, noise) through the real "
+            "parsers, aSDomain / CDS_motif objects with every attribute through to_biopython / from_biopython incl. "
+            "damaged written features; non-trivial = at least one area or annotated CDS, a non-empty leader or tail, a "
+            "text that parses; distinct by canonical input")
     TRUSTED = ["Biopython GenBank writer/parser (text layer, line wrapping, header), orjson; SeqFeature / location classes",
                "CPython list.sort for fewer than 64 elements is modelled (initial run + binary insertion); the merge phase for "
                "longer feature lists is not (generated records stay below 64 features)",
-               "modelled, not verified: the class-specific qualifiers of CDS (gene_functions, sec_met, NRPS_PKS, translation), "
-               "genes, domains, motifs, modules, sources are opaque qualifier text to the model; prepeptides and T2PKS "
-               "protocluster qualifiers are not generated",
+               "inside record cases the class-specific qualifiers of CDS, genes, domains, motifs, modules, sources are opaque "
+               "qualifier text to the record model; modelled and proved separately (own driver ops on the real classes): "
+               "_parse_format, gene function annotations, sec_met domains, aSDomain / CDS_motif features, the prepeptide "
+               "location; executed only: PFAM_domain, aSModule, NRPS_PKS qualifier contents, CDS names / translation, "
+               "registered AntismashDomain subtypes, ExternalCDSMotif; T2PKS protocluster qualifiers are not generated",
+               "floating point numbers are kept as the text Python writes: float(str(x)) == x and float(f'{x:.2E}') being "
+               "the rounded value are CPython's; int(text) is modelled for canonical decimal text only",
+               "Python's re module: the matcher's search order for the expressions _parse_format builds is transcribed "
+               "(lazy group, greedy digit group, optional space, $ before a final newline) and compared with the real "
+               "matcher on every generated format / text; other regular expression features are not modelled; ASCII "
+               "white space only in str.split()",
                "constructor validation (feature type length, product syntax, overlapping exons) and CDS name/location "
                "uniqueness checks are not modelled; generated inputs are valid",
                "strandless locations are read back as forward from GenBank text: the spec identifies None and +1 on that path",
@@ -512,6 +572,26 @@ class C10(Property):
         case: Dict[str, Any] = {"f": "record", "len": n, "circ": circ, "input": [], "annot": [], "domains": [],
                                 "modules": [], "prepeptides": [],
                                 "generics": [], "subs": [], "protos": [], "cands": "auto", "regions": True}
+        # ---- what the record carries besides features (header of the GenBank file, top level of the JSON)
+        if rng.random() < 0.6:
+            meta: Dict[str, Any] = {"name": rng.choice(["REC1", "NAME_2", "scaffold12"]),
+                                    "description": rng.choice(["generated record", "Streptomyces generatus strain X1, complete genome.",
+                                                               "a description long enough to be continued on a second line of the "
+                                                               "DEFINITION block, with commas; and more", "x"]),
+                                    "dbxrefs": rng.choice([[], ["BioProject:PRJNA1"], ["BioProject:PRJNA1", "BioSample:SAMN2"]]),
+                                    "annotations": []}
+            if rng.random() < 0.5:
+                meta["annotations"].append(["taxonomy", rng.choice([["Bacteria", "Actinomycetota"], ["Bacteria", "Actinomycetota", "Streptomyces"]])])   # (a one-word lineage is read as part of the organism by Biopython)
+            if rng.random() < 0.4:
+                meta["annotations"].append(["keywords", rng.choice([["kw1"], ["kw1", "key word two"], [""]])])
+            if rng.random() < 0.4:
+                meta["annotations"].append(["comment", rng.choice(["one line", "line one\nline two"])])
+            if rng.random() < 0.3:
+                meta["annotations"].append(["data_file_division", rng.choice(["BCT", "UNK", "PLN"])])
+            if rng.random() < 0.3:
+                meta["references"] = [[0, n, "A B, C D", "a title", "J. Irr. Res. 1 (2000)", "12345"]][:rng.choice([1, 1])] + \
+                    ([[0, n // 2, "E F", "Direct Submission", "Submitted (01-JAN-2000)", ""]] if rng.random() < 0.5 else [])
+            case["meta"] = meta
         # ---- input features (as parsed from a GenBank input file)
         if rng.random() < 0.7:
             case["input"].append({"type": "source", "loc": simple(0, n, 1),
@@ -613,7 +693,7 @@ class C10(Property):
                        "n": len(case["domains"]),
                        # a hit score of exactly 0.0 and negative scores are legal (lenient e-value cut-offs)
                        "score": rng.choice([None, 0.0, 0.0, -1.2, 5.3, 250.75]),
-                       "evalue": rng.choice([None, 0.0, 0.12, 1.2e-05, 3.4e-30]),
+                       "evalue": rng.choice([None, 0.0, 0.12, 1.2e-05, 3.4e-30, 3.4e-30, 1.2345e-07]),
                        "label": rng.choice([None, "C1_example", "nrpspksdomains_x_PKS_KS.1"]),
                        "database": rng.choice([None, "abmotifs", "Pfam-A.hmm 31.0"]),
                        "detection": rng.choice([None, "hmmscan"]),
@@ -644,17 +724,19 @@ class C10(Property):
                 case["annot"].append(ann)
             # precursor peptides: leader, core and tail written as three features, rebuilt from the core
             total_aa = total // 3
-            if total_aa >= 3 and total % 3 == 0 and not gloc["c"] and rng.random() < 0.3 and not name.endswith("x"):
-                if gloc["parts"][0][2] == 1 or rng.random() < 0.15:
-                    lead = rng.choice([0, 1, total_aa // 3])
-                    tail = rng.choice([0, 0, 1]) if total_aa - lead >= 2 else 0
+            # (on single-exon, multi-exon and origin-spanning genes of both strands; not on `order` locations)
+            if total_aa >= 3 and total % 3 == 0 and gloc.get("op") is None and not name.endswith("x") and \
+                    rng.random() < (0.7 if name.startswith("cspan") else 0.3):
+                if True:
+                    lead = rng.choice([0, 1, total_aa // 3, total_aa // 2])
+                    tail = rng.choice([0, 0, 1, (total_aa - lead) // 2]) if total_aa - lead >= 2 else 0
                     core = total_aa - lead - tail
                     case["prepeptides"].append({
                         "cds": name, "class": rng.choice(["lanthipeptide", "sactipeptide", "thiopeptide"]),
                         "subclass": rng.choice(["Class-I", "Type-II", ""]), "tool": rng.choice(["lanthipeptides", "sactipeptides"]),
                         "leader": "M" * lead, "core": "C" * core, "tail": "G" * tail,
-                        "score": rng.choice([0.0, 12.5, -3.25]), "mono": rng.choice([800.1, 0.0]),
-                        "mw": rng.choice([801.2, 2345.6]), "alt": rng.choice([[], [819.2], [819.2, 837.2]])})
+                        "score": rng.choice([0.0, 12.5, -3.25, -3.25, 12.345]), "mono": rng.choice([800.1, 0.0, 800.1, 800.123]),
+                        "mw": rng.choice([801.2, 2345.6]), "alt": rng.choice([[], [819.2], [819.2, 837.2], [819.25]])})
         for _ in range(rng.choice([0, 0, 1])):
             lo = rng.randrange(0, n - 3)
             case["generics"].append({"type": "misc_feature", "loc": simple(lo, lo + 3, rng.choice([1, -1, None])),
@@ -797,12 +879,385 @@ class C10(Property):
         return out
 
     def cases(self, rng: random.Random, tier: str, deep: bool) -> Iterator[Dict[str, Any]]:
-        count = 16000 if deep else 2400
+        count = 16000 if deep else 1800
         generated = (self.gen_layout(rng, tier) for _ in range(count))
         yield from self._precomputed(generated)
+        yield from self.prepeptide_cases(rng, deep)
+        yield from self.qualtext_cases(rng, deep)
+        yield from self.dom_cases(rng, deep)
         if deep:
             yield from self._precomputed(self.small_scope())
         self.extra_coverage = {"records_generated": count, "worker_processes": WORKERS}
+
+    def prepeptide_cases(self, rng: random.Random, deep: bool) -> Iterator[Dict[str, Any]]:
+        """every leader/tail split of small genes of every shape: one exon, two or three exons (apart and
+        adjoining), origin-spanning (cut before, at and after the origin), both strands"""
+        n = 60
+        shapes = [[[9, 27]], [[9, 18], [24, 33]], [[9, 18], [18, 27]], [[9, 15], [20, 26], [30, 36]],
+                  [[51, 60], [0, 9]], [[48, 60], [0, 6]], [[57, 60], [0, 15]], [[45, 54], [57, 60], [0, 6]]]
+        for shape in shapes:
+            for strand in (1, -1):
+                parts = [[lo, hi, strand] for lo, hi in shape]
+                if strand == -1:
+                    parts.reverse()
+                loc = compound(parts) if len(parts) > 1 else simple(*parts[0])
+                total = sum(hi - lo for lo, hi in shape) // 3
+                for ld in range(0, total):
+                    for tl in range(0, total - ld):
+                        yield {"f": "prepeptide", "loc": loc, "ld": ld, "tl": tl, "len": n}
+        for _ in range(3000 if deep else 300):
+            strand = rng.choice([1, -1])
+            k = rng.choice([1, 2, 2, 3])
+            cuts = sorted(rng.sample(range(0, 200), 2 * k))
+            parts = [[cuts[2 * i], cuts[2 * i + 1] + 1, strand] for i in range(k)]
+            if rng.random() < 0.3 and k >= 2:
+                parts = parts[1:] + parts[:1]          # reads as crossing the origin
+            if strand == -1:
+                parts.reverse()
+            total = sum(p[1] - p[0] for p in parts) // 3
+            if total < 2:
+                continue
+            ld = rng.randrange(0, total)
+            tl = rng.randrange(0, total - ld)
+            yield {"f": "prepeptide", "loc": compound(parts) if k > 1 else simple(*parts[0]), "ld": ld, "tl": tl, "len": 201}
+
+    # ---- the text inside the class-specific qualifiers (ASV/Model/SerialQual.lean)
+    FORMATS = ["{} ({}) {}: {}", "{} ({}) {}", "{} (E-value: {}, bitscore: {}, seeds: {}, tool: {})",
+               "Domain: {} ({:d}-{:d}). E-value: {}. Score: {}. Matches aSDomain: {}", "type: {}",
+               "{}: {}", "{} {}", "{}({:d})", "{:d}-{:d}", "a {} b", "{}.{}. {}", "{}"]
+    FUNCTIONS = ["other", "biosynthetic", "biosynthetic-additional", "transport", "regulatory", "resistance"]
+
+    def qualtext_cases(self, rng: random.Random, deep: bool) -> Iterator[Dict[str, Any]]:
+        alphabet = "ab(:) ,.-0 1"
+
+        def noise(lo: int, hi: int, chars: str = alphabet) -> str:
+            return "".join(rng.choice(chars) for _ in range(rng.randint(lo, hi)))
+
+        def word() -> str:
+            return rng.choice(["smcogs", "rule-based-clusters", "t", "a.b", "x1", "cluster_definition", "resist"])
+
+        def description() -> str:
+            return rng.choice(["thing", "SMCOG1000: thing", "SMCOG1000:thing (Score: 12.5; E-value: 1e-5)", "a b", "x:", ":x",
+                               "a (b) c", "a: b: c", " lead", "trail ", "(p) q", "4 (x): y", noise(1, 8)])
+
+        def product() -> Optional[str]:
+            # never "": `__str__` treats it as no product while `__eq__` (the de-duplication in add()) does not
+            return rng.choice([None, None, "T1PKS", "NRPS-like", "p q", "a:b", "RiPP (x)"])
+        # hand-picked first
+        for text in ["other (smcogs) SMCOG1000: thing", "other (t) :a", "biosynthetic (t) d", "biosynthetic (t) p: d", "bio (t) d",
+                     "other (a b) d", "other ( t) d", "other (t)d", "other(t) d", "other (t) p:d", "other (t) a)b: c", "other (t) ",
+                     "other (t) d\n", "other (t) p: d\n", "other (t) a\nb", "other (a)b) d", "other (a) (b) d", "", "other", "other () d",
+                     "regulatory (smcogs) SMCOG1057:TetR family transcriptional regulator (Score: 82.6; E-value: 1.6e-25)"]:
+            yield {"f": "qualtext", "kind": "genefn", "text": text}
+        count = 12000 if deep else 1500
+        for i in range(count):
+            kind = ("format", "genefn", "genefns", "secmet")[i % 4]
+            if kind == "format":
+                fmt = rng.choice(self.FORMATS) if rng.random() < 0.8 else noise(1, 3, "ab (.:") + "{}" + noise(0, 3, "ab (.:") + \
+                    rng.choice(["", "{}", "{:d}", "{}" + noise(1, 2, " ):")])
+                if rng.random() < 0.6:
+                    # data rendered from the format with awkward values, then perhaps damaged
+                    data = fmt
+                    while "{:d}" in data:
+                        data = data.replace("{:d}", rng.choice(["0", "12", "345", "x", ""]), 1)
+                    while "{}" in data:
+                        data = data.replace("{}", rng.choice(["a", "ab", "1.5e-05", "a b", "a(b)", "x: y", "PKS_KS(Iterative-KS)", "",
+                                                               noise(1, 4)]), 1)
+                    if rng.random() < 0.3:
+                        at = rng.randrange(len(data) + 1)
+                        data = data[:at] + rng.choice(["", " ", "\n", ":", "(", ")"]) + data[at + rng.choice([0, 1]):]
+                else:
+                    data = noise(0, 14)
+                yield {"f": "qualtext", "kind": "format", "fmt": fmt, "data": data}
+            elif kind == "genefn":
+                if rng.random() < 0.5:
+                    prod = product()
+                    text = f"{rng.choice(self.FUNCTIONS + ['bio', 'Other'])} ({rng.choice([word(), 'a b', 'a)b', ''])}) " + \
+                        (f"{prod}: " if prod is not None and rng.random() < 0.9 else "") + description()
+                    if rng.random() < 0.3:
+                        at = rng.randrange(len(text) + 1)
+                        text = text[:at] + rng.choice(["", " ", "\n", ":", "(", ")"]) + text[at + rng.choice([0, 1]):]
+                else:
+                    text = noise(0, 16)
+                yield {"f": "qualtext", "kind": "genefn", "text": text}
+            elif kind == "genefns":
+                pool = [{"fn": rng.choice(self.FUNCTIONS), "tool": word(), "description": description(), "product": product()}
+                        for _ in range(3)]
+                annots = [dict(rng.choice(pool)) for _ in range(rng.randint(1, 4))]
+                yield {"f": "qualtext", "kind": "genefns", "annots": annots}
+            else:
+                names = ["PKS_KS", "AMP-binding", "a b", "a(b)", "x", "Condensation", "p450"]
+                domains = [{"name": rng.choice(names), "evalue": rng.choice([0.0, 1e-5, 1.5e-20, 3.0, 2.5e-310, 1e22, 0.1]),
+                            "bitscore": rng.choice([0.0, 12.5, -3.25, 100.0, 1e16]), "nseeds": rng.choice([0, 1, 25, 1000]),
+                            "tool": rng.choice(["rule-based-clusters", "t", "a b", "x(y)"])} for _ in range(rng.randint(1, 4))]
+                yield {"f": "qualtext", "kind": "secmet", "domains": domains}
+
+    @staticmethod
+    def observe_qualtext(case: Dict[str, Any]) -> Dict[str, Any]:
+        from antismash.common.secmet.qualifiers.gene_functions import (GeneFunction, GeneFunctionAnnotations,
+                                                                        _GeneFunctionAnnotation)
+        from antismash.common.secmet.qualifiers.secmet import SecMetQualifier, _parse_format
+
+        def annot(a: Any) -> Dict[str, Any]:
+            return {"fn": str(a.function), "tool": a.tool, "description": a.description, "product": a.product}
+
+        def quals(annotations: Any) -> List[List[Any]]:
+            # the two qualifiers CDSFeature.to_biopython writes
+            if not annotations:
+                return []
+            return [["gene_functions", list(map(str, annotations))], ["gene_kind", [str(annotations.get_classification())]]]
+        kind = case["kind"]
+        if kind == "format":
+            try:
+                return {"groups": list(_parse_format(case["fmt"], case["data"]))}
+            except ValueError:
+                return {"groups": None}
+        if kind == "genefn":
+            try:
+                return {"parsed": {"ok": annot(_GeneFunctionAnnotation.from_string(case["text"]))}}
+            except Exception as exc:  # pylint: disable=broad-except
+                return {"parsed": {"err": err_kind(exc)}}
+        if kind == "genefns":
+            out: Dict[str, Any] = {}
+            try:
+                built = GeneFunctionAnnotations()
+                for a in case["annots"]:
+                    built.add(GeneFunction.from_string(a["fn"]), a["tool"], a["description"], a["product"])
+                out["built"] = {"ok": [annot(a) for a in built]}
+                out["quals"] = {"ok": quals(built)}
+            except Exception as exc:  # pylint: disable=broad-except
+                return {"built": {"err": err_kind(exc)}}
+            try:
+                back = GeneFunctionAnnotations()
+                back.add_from_qualifier(list(map(str, built)))
+                out["back"] = {"ok": [annot(a) for a in back]}
+                out["again"] = {"ok": quals(back)}
+            except Exception as exc:  # pylint: disable=broad-except
+                out["back"] = {"err": err_kind(exc)}
+            return out
+        assert kind == "secmet"
+
+        def dom(d: Any) -> Dict[str, str]:
+            return {"name": d.name, "evalue": str(d.evalue), "bitscore": str(d.bitscore), "nseeds": str(d.nseeds), "tool": d.tool}
+        built_sm = SecMetQualifier([SecMetQualifier.Domain(d["name"], d["evalue"], d["bitscore"], d["nseeds"], d["tool"])
+                                    for d in case["domains"]])
+        strs = list(map(str, built_sm))
+        out = {"built": [dom(d) for d in built_sm], "strs": strs}
+        try:
+            out["back"] = {"ok": [dom(d) for d in SecMetQualifier.from_biopython(strs)]}
+        except Exception as exc:  # pylint: disable=broad-except
+            out["back"] = {"err": err_kind(exc)}
+        return out
+
+    def judge_qualtext(self, case: Dict[str, Any], obs: Dict[str, Any], drv: Dict[str, Any]) -> Judgement:
+        kind = case["kind"]
+        tags = ["qualtext:" + kind]
+        if kind == "format":
+            if not drv["modelled"]:
+                return Judgement(True, True, in_scope=False, tags=tuple(tags + ["format-not-modelled"]))
+            corr = drv["groups"] == obs["groups"]
+            tags.append("match" if obs["groups"] is not None else "no-match")
+            return Judgement(corr, True, nontrivial=obs["groups"] is not None, tags=tuple(tags),
+                             detail="" if corr else f"_parse_format: model {drv['groups']} vs implementation {obs['groups']}")
+        if kind == "genefn":
+            corr = drv["parsed"] == obs["parsed"]
+            tags.append("parsed" if "ok" in obs["parsed"] else "refused:" + obs["parsed"]["err"])
+            return Judgement(corr, True, nontrivial="ok" in obs["parsed"], tags=tuple(tags),
+                             detail="" if corr else f"from_string: model {drv['parsed']} vs implementation {obs['parsed']}")
+        if kind == "genefns":
+            if "err" in obs["built"]:
+                corr = "err" in drv["built"]
+                return Judgement(corr, True, in_scope=False, tags=tuple(tags + ["refused:" + obs["built"]["err"]]),
+                                 detail="" if corr else f"model {drv['built']} vs implementation {obs['built']}")
+            problems = [f"{k}: model {drv[k]} vs implementation {obs[k]}" for k in ("built", "quals", "back", "again")
+                        if drv[k] != obs.get(k)]
+            def norm(annots: List[Dict[str, Any]]) -> List[Dict[str, Any]]:
+                # an empty product is "no product" (`if not self.product`)
+                return [dict(a, product=a["product"] or None) for a in annots]
+
+            def blur(a: Dict[str, Any]) -> Tuple[str, str, str]:
+                text = a["description"] if not a["product"] else f"{a['product']}: {a['description']}"
+                return (a["fn"], a["tool"], text.replace(" ", ""))
+            built = norm(obs["built"]["ok"])
+            bad = []
+            if "err" in obs["back"]:
+                bad.append(f"re-reading raised {obs['back']['err']}")
+            else:
+                if norm(obs["back"]["ok"]) != built:
+                    bad.append(f"annotations {built} came back as {obs['back']['ok']}")
+                if obs["again"] != obs["quals"]:
+                    bad.append(f"second write {obs['again']} differs from the first {obs['quals']}")
+            known = None
+            if bad and "ok" in obs["back"]:
+                colon = any(":" in (a["product"] or "") or (not a["product"] and ":" in a["description"]) for a in built)
+                if colon and list(dict.fromkeys(map(blur, built))) == list(dict.fromkeys(map(blur, obs["back"]["ok"]))) and \
+                        json.dumps(obs["again"]).replace(" ", "") == json.dumps(obs["quals"]).replace(" ", ""):
+                    known = KF_FUNCTION
+            if any(":" in a["description"] for a in built):
+                tags.append("colon-in-description")
+            return Judgement(not problems, not bad, in_scope=bool(drv["scope"]), known=known, nontrivial=True, tags=tuple(tags),
+                             detail="; ".join(bad + problems)[:1200])
+        assert kind == "secmet"
+        problems = [f"{k}: model {drv[k]} vs implementation {obs[k]}" for k in ("built", "strs", "back") if drv[k] != obs[k]]
+        bad = []
+        if obs["back"].get("ok") != obs["built"]:
+            bad.append(f"domains {obs['built']} came back as {obs['back']}")
+        return Judgement(not problems, not bad, in_scope=bool(drv["scope"]), nontrivial=True, tags=tuple(tags),
+                         detail="; ".join(bad + problems)[:1200])
+
+    # ---- domains and motifs outside any record (Dom in ASV/Model/SerialQual.lean)
+    DOM_KEYS = ["aSTool", "locus_tag", "protein_start", "protein_end", "aSDomain", "ASF", "domain_id", "database", "detection",
+                "label", "translation", "evalue", "score"]
+
+    def dom_cases(self, rng: random.Random, deep: bool) -> Iterator[Dict[str, Any]]:
+        def opt(values: List[Any], p_none: float = 0.4) -> Any:
+            return None if rng.random() < p_none else rng.choice(values)
+        for i in range(4000 if deep else 500):
+            strand = rng.choice([1, -1])
+            lo = rng.randrange(0, 200)
+            if rng.random() < 0.25:
+                parts = [[lo, lo + 30, strand], [lo + 40, lo + 70, strand]]
+                if strand == -1:
+                    parts.reverse()
+                loc = compound(parts)
+            else:
+                loc = simple(lo, lo + rng.choice([3, 60]), strand)
+            p_start = rng.randrange(0, 50)
+            case = {"f": "dom", "kind": rng.choice(["aSDomain", "CDS_motif"]), "loc": loc,
+                    "tool": rng.choice(["made_up_tool", "t", "cluster_hmmer"]), "locus_tag": rng.choice(["ctg1_5", "a", "x" * 50]),
+                    "p_start": p_start, "p_end": p_start + rng.choice([0, 1, 20]),
+                    "domain": opt(["PKS_KS", "Type III (x)", "a b"]), "asf": rng.sample(["hit b", "hit a", "c", "Z"], rng.randint(0, 3)),
+                    "domain_id": opt(["made_up_ctg1_5_0001", "id.1"], 0.1), "database": opt(["db.hmm", "a b"]),
+                    "detection": opt(["hmmscan", "by hand"]), "label": opt(["ctg1_5_KS1", "L"]),
+                    "evalue": opt([0.0, 1.5e-20, 0.12, 3.4e-30, 1e-300, 2.5, 1.2345e-07]), "score": opt([0.0, 12.5, -3.25, 100.0, 1e16, 0.1]),
+                    "translation": rng.choice(["", "MAGIC", "M" * 70]), "notes": rng.sample(["n2", "n1", "a note"], rng.randint(0, 2)),
+                    "quals": rng.sample([["custom", ["x", "y"]], ["zz", ["1"]], ["note", ["stored"]], ["inference", ["i"]]],
+                                        rng.randint(0, 2))}
+            if i % 3 == 2:
+                # read a damaged feature: both sides must refuse or accept alike
+                key = rng.choice(self.DOM_KEYS + ["tool", "note"])
+                case["mutate"] = rng.choice([["del", key], ["set", key, []], ["set", key, [""]], ["set", key, ["7", "8"]],
+                                             ["set", key, ["a b*"]], ["set", key, [" "]]])
+            yield case
+
+    @staticmethod
+    def _dump_dom(feature: Any) -> Dict[str, Any]:
+        return {"feat": dump_feat(feature), "tool": feature.tool, "locus_tag": feature.locus_tag,
+                "p_start": int(feature.protein_location.start), "p_end": int(feature.protein_location.end),
+                "domain": feature.domain, "asf": list(feature.asf.hits), "domain_id": feature.domain_id,
+                "database": feature.database, "detection": feature.detection, "label": feature.label,
+                "evalue": None if feature.evalue is None else f"{feature.evalue:.2E}",
+                "score": None if feature.score is None else str(feature.score), "translation": feature._translation,
+                # the numbers themselves, for the specification
+                "@evalue": feature.evalue, "@score": feature.score}
+
+    @classmethod
+    def observe_dom(cls, case: Dict[str, Any]) -> Dict[str, Any]:
+        from Bio.SeqFeature import SeqFeature
+        from antismash.common.secmet.features import AntismashDomain, CDSMotif
+        from antismash.common.secmet.locations import FeatureLocation
+        location = common.make_location(case["loc"])
+        protein = FeatureLocation(case["p_start"], case["p_end"])
+        klass = AntismashDomain if case["kind"] == "aSDomain" else CDSMotif
+        try:
+            if klass is AntismashDomain:
+                feature = AntismashDomain(location, case["tool"], protein, case["locus_tag"], domain=case["domain"])
+            else:
+                feature = CDSMotif(location, case["locus_tag"], protein, case["tool"])
+                feature.domain = case["domain"]
+            for name in ("domain_id", "database", "detection", "label"):
+                setattr(feature, name, case[name])
+            if case["evalue"] is not None:
+                feature.evalue = case["evalue"]
+            if case["score"] is not None:
+                feature.score = case["score"]
+            if case["translation"]:
+                feature.translation = case["translation"]
+            for hit in case["asf"]:
+                feature.asf.add(hit)
+            feature.notes.extend(case["notes"])
+            for key, values in case["quals"]:
+                feature._qualifiers[key] = list(values)
+            state = cls._dump_dom(feature)
+            bio = feature.to_biopython()[0]
+        except Exception as exc:  # pylint: disable=broad-except
+            return {"err": err_kind(exc), "msg": str(exc)[:200]}
+        out = {"state": state, "bio": {"loc": common.location_json(bio.location), "type": bio.type, "quals": qlist(bio.qualifiers)}}
+        quals = {k: list(v) for k, v in bio.qualifiers.items()}
+        if case.get("mutate"):
+            if case["mutate"][0] == "del":
+                quals.pop(case["mutate"][1], None)
+            else:
+                quals[case["mutate"][1]] = list(case["mutate"][2])
+            out["mutated"] = {"loc": out["bio"]["loc"], "type": bio.type, "quals": qlist(quals)}
+        try:
+            back = klass.from_biopython(SeqFeature(bio.location, type=bio.type, qualifiers=quals))
+            out["back"] = {"ok": cls._dump_dom(back)}
+            again = back.to_biopython()[0]
+            out["again"] = {"loc": common.location_json(again.location), "type": again.type, "quals": qlist(again.qualifiers)}
+        except Exception as exc:  # pylint: disable=broad-except
+            out["back"] = {"err": err_kind(exc), "msg": str(exc)[:200]}
+        return out
+
+    def judge_dom(self, case: Dict[str, Any], obs: Dict[str, Any], drv: Dict[str, Any]) -> Judgement:
+        tags = ["dom:" + case["kind"]]
+        if "err" in obs:
+            return Judgement(True, True, in_scope=False, tags=tuple(tags + ["not-built:" + obs["err"]]))
+
+        def strip(d: Dict[str, Any]) -> Dict[str, Any]:
+            return {k: v for k, v in d.items() if not k.startswith("@") and k != "msg"}
+
+        def bio_of(d: Dict[str, Any]) -> Any:
+            return [{k: v for k, v in b.items() if k != "ls"} for b in d.get("ok", [])] if "ok" in d else d
+        real_back = {"ok": strip(obs["back"]["ok"])} if "ok" in obs["back"] else {"err": obs["back"]["err"]}
+        if "mutated" in obs:
+            tags.append("damaged:" + ("accepted" if "ok" in obs["back"] else obs["back"]["err"]))
+            if real_back.get("err", "").startswith(("value-error:", "other:")) or \
+                    (case["mutate"][1] in ("evalue", "score") and case["mutate"][0] == "set"):
+                # float() of arbitrary text is outside the model (numbers are kept as text)
+                return Judgement(True, True, in_scope=False, tags=tuple(tags + ["number-text"]))
+            corr = drv["back"] == real_back or drv["back"].get("err") == "unsupported"
+            return Judgement(corr, True, in_scope=False, nontrivial=True, tags=tuple(tags),
+                             detail="" if corr else f"from_biopython of {obs['mutated']}: model {drv['back']} vs implementation {real_back}")
+        problems = []
+        if bio_of(drv["bio"]) != [obs["bio"]]:
+            problems.append(f"written: model {drv['bio']} vs implementation {obs['bio']}")
+        if drv["back"] != real_back:
+            problems.append(f"re-read: model {drv['back']} vs implementation {real_back}")
+        if "again" in obs and bio_of(drv["again"]) != [obs["again"]]:
+            problems.append(f"second write: model {drv['again']} vs implementation {obs['again']}")
+        bad = []
+        if case["kind"] == "aSDomain" and not case["domain_id"]:
+            # not an annotation a record can hold (Record.add_antismash_domain needs the name); both sides refuse to read it
+            tags.append("domain-without-id")
+            return Judgement(not problems and drv["back"] == {"err": "assertion"}, True, in_scope=False, tags=tuple(tags),
+                             detail="; ".join(problems)[:1500])
+        if "err" in obs["back"]:
+            bad.append(f"re-reading raised {obs['back']['err']}: {obs['back'].get('msg')}")
+        else:
+            before, after = obs["state"], obs["back"]["ok"]
+            for key in before:
+                if key in ("feat", "evalue", "score"):
+                    continue
+                if before[key] != after[key]:
+                    bad.append(f"{key.lstrip('@')}: {before[key]!r} -> {after[key]!r}")
+            fb, fa = before["feat"], after["feat"]
+            view_b = (fb["loc"], fb["type"], sorted(fb["notes"] + dict(fb["quals"]).get("note", [])), fb["byAS"], fb["codon"],
+                      sorted(q for q in fb["quals"] if q[0] not in ("note", "tool")))
+            view_a = (fa["loc"], fa["type"], sorted(fa["notes"] + dict(fa["quals"]).get("note", [])), fa["byAS"], fa["codon"],
+                      sorted(q for q in fa["quals"] if q[0] not in ("note", "tool")))
+            if view_b != view_a:
+                bad.append(f"base feature {view_b} -> {view_a}")
+            if obs["again"] != obs["bio"]:
+                bad.append("the second write differs from the first")
+        exact = case["evalue"] is None or float(f"{case['evalue']:.2E}") == case["evalue"]
+        known = None
+        if not exact and len(bad) == 1 and bad[0].startswith("evalue:") and \
+                obs["back"]["ok"]["@evalue"] == float(f"{case['evalue']:.2E}"):
+            known = KF_PRECISION
+        # the model's e-value is the written text: the theorem speaks about values that are their own three-digit form
+        return Judgement(not problems, not bad, in_scope=bool(drv["scope"]) and exact, known=known, nontrivial=True,
+                         tags=tuple(tags), detail="; ".join(bad + problems)[:1500])
 
     def _precomputed(self, cases: Iterator[Dict[str, Any]]) -> Iterator[Dict[str, Any]]:
         """runs the real round trips of a chunk of cases in worker processes (the implementation side is
@@ -852,6 +1307,12 @@ class C10(Property):
         return self.observe(case)
 
     def observe(self, case: Dict[str, Any]) -> Dict[str, Any]:
+        if case["f"] == "prepeptide":
+            return self.observe_prepeptide(case)
+        if case["f"] == "qualtext":
+            return self.observe_qualtext(case)
+        if case["f"] == "dom":
+            return self.observe_dom(case)
         try:
             rec = build_record(case)
         except Exception as exc:  # pylint: disable=broad-except
@@ -873,28 +1334,119 @@ class C10(Property):
                     "w2": dump_bios(re_json.to_biopython()), "text_fixed": text1 == text2, "json_fixed": json1 == json2,
                     "seq_same": str(rec.seq) == str(re_gb.seq) == str(re_json.seq),
                     "topology_same": rec.is_circular() == re_gb.is_circular() == re_json.is_circular(),
+                    "meta_gb": meta_diff(dump_meta(rec), dump_meta(re_gb), True),
+                    "meta_json": meta_diff(dump_meta(rec), dump_meta(re_json), False),
                     "id_same": rec.id == re_gb.id == re_json.id,
                     "text_diff": "" if text1 == text2 else _first_diff(text1, text2)}
         except Exception as exc:  # pylint: disable=broad-except
             import traceback
             return {"err": err_kind(exc), "msg": str(exc)[:300], "trace": traceback.format_exc()[-500:]}
 
+    @staticmethod
+    def observe_prepeptide(case: Dict[str, Any]) -> Dict[str, Any]:
+        """location part of the real Prepeptide.to_biopython / from_biopython, outside any record"""
+        from antismash.common.secmet.features import Prepeptide
+        location = common.make_location(case["loc"])
+        total = len(location) // 3
+        try:
+            pre = Prepeptide(location, "lanthipeptide", "C" * (total - case["ld"] - case["tl"]), "locus", "lanthipeptides",
+                             "Class-I", 1.5, 800.1, 801.2, [], leader="M" * case["ld"], tail="G" * case["tl"])
+            bios = pre.to_biopython()
+            core = next(b for b in bios if b.qualifiers["prepeptide"] == ["core"])
+            written = {"core": common.location_json(core.location),
+                       "leader": core.qualifiers.get("leader_location", [None])[0],
+                       "tail": core.qualifiers.get("tail_location", [None])[0],
+                       "pieces": [[b.qualifiers["prepeptide"][0], str(b.location)] for b in bios]}
+        except Exception as exc:  # pylint: disable=broad-except
+            return {"err": err_kind(exc), "msg": str(exc)[:200]}
+        try:
+            back = Prepeptide.from_biopython(core)
+            return {"written": written, "re": common.location_json(back.location),
+                    "again": [[b.qualifiers["prepeptide"][0], str(b.location)] for b in back.to_biopython()]}
+        except Exception as exc:  # pylint: disable=broad-except
+            return {"written": written, "re_err": err_kind(exc), "msg": str(exc)[:200]}
+
     def driver_line(self, case: Dict[str, Any], obs: Dict[str, Any]) -> Optional[Dict[str, Any]]:
+        if case["f"] == "prepeptide":
+            return dict(case, re=obs.get("re"))
+        if case["f"] == "dom":
+            if "state" not in obs:
+                return None
+            if "mutated" in obs:
+                return {"f": "dom", "kind": case["kind"], "bio": obs["mutated"]}
+            return {"f": "dom", "kind": case["kind"], "d": {k: v for k, v in obs["state"].items() if not k.startswith("@")}}
+        if case["f"] == "qualtext":
+            if case["kind"] == "secmet":
+                # numbers travel as the text Python writes for them (`str(float)`, `str(int)`: trusted layer)
+                return dict(case, domains=[dict(d, evalue=str(float(d["evalue"])), bitscore=str(float(d["bitscore"])),
+                                                nseeds=str(int(d["nseeds"]))) for d in case["domains"]])
+            return case
         if "state" not in obs:
             return None
         line = {"f": "record", "rec": for_model(obs["state"]), "re_gb": for_model(obs["re_gb"]),
                 "re_json": for_model(obs["re_json"])}
-        if any(_reverse_prepeptide(f) for f in obs["state"]["others"]):
-            # recorded finding KF-C10-reverse-prepeptide-location: such prepeptides are judged on their attribute
-            # dumps (with the part structure of the location set aside), not by the Lean view
+        if obs["state"]["pre_locs"]:
+            # prepeptides are judged on their attribute dumps (where the recorded finding
+            # KF-C10-prepeptide-location-parts can set the part structure of the location aside), not by the Lean view
             def without(state: Dict[str, Any]) -> Dict[str, Any]:
-                return dict(state, others=[f for f in state["others"] if not _reverse_prepeptide(f)])
+                return dict(state, others=[f for f in state["others"] if not _is_prepeptide(f)])
             line["spec_rec"] = without(line["rec"])
             line["re_gb"] = without(line["re_gb"])
             line["re_json"] = without(line["re_json"])
         return line
 
+    def judge_prepeptide(self, case: Dict[str, Any], obs: Dict[str, Any], drv: Dict[str, Any]) -> Judgement:
+        scope = bool(drv["scope"])
+        tags = ["prepeptide-location", "compound" if case["loc"]["c"] else "simple",
+                "reverse" if case["loc"]["parts"][0][2] == -1 else "forward"]
+        if "err" in obs:
+            # the cut itself is C09's subject; here only: the model refuses what the code refuses
+            corr = "err" in drv["written"]
+            return Judgement(corr, True, in_scope=False, tags=tuple(tags + ["refused:" + obs["err"]]),
+                             detail="" if corr else f"model {drv['written']} vs implementation {obs}")
+        problems = []
+        w = drv["written"].get("ok")
+        real = {k: obs["written"][k] for k in ("core", "leader", "tail")}
+        if w != real:
+            problems.append(f"written: model {drv['written']} vs implementation {real}")
+        if "re" in obs and drv["reread"] != obs["re"]:
+            problems.append(f"re-read location: model {drv['reread']} vs implementation {obs['re']}")
+        corr = not problems
+        # spec: the re-read location is the original one (the translated part of it), and writes the same pieces
+        whole = sum(p[1] - p[0] for p in case["loc"]["parts"]) % 3 == 0
+        bad = []
+        if "re_err" in obs:
+            bad.append(f"re-reading raised {obs['re_err']}: {obs.get('msg')}")
+        else:
+            if not drv["impl_bases_ok"]:
+                bad.append("the re-read location does not have the gene's translated bases in transcription order")
+            if whole and obs["re"] != case["loc"]:
+                bad.append(f"location {case['loc']['parts']} came back as {obs['re']['parts']}")
+            if obs["again"] != obs["written"]["pieces"]:
+                bad.append(f"second write {obs['again']} differs from the first {obs['written']['pieces']}")
+        known = None
+        if bad and "re" in obs and drv["impl_bases_ok"] and obs["again"] == obs["written"]["pieces"] and \
+                (not whole or drv["impl_merged"] == drv["orig_merged"]):
+            known = KF_PREPEPTIDE     # only the cut into parts differs
+        if not corr and w == real and "re" in obs and drv["impl_merged"] == drv["model_merged"]:
+            # the model is the repaired code (fixes/D107); until that is applied the implementation's re-read
+            # location may differ from the model's in the cut into parts only — the same recorded finding
+            known = KF_PREPEPTIDE
+        detail = "; ".join(bad + problems)
+        return Judgement(corr, not bad, in_scope=scope, known=known, nontrivial=case["ld"] + case["tl"] > 0,
+                         tags=tuple(tags), detail=detail[:1200])
+
     def judge(self, case: Dict[str, Any], obs: Dict[str, Any], drv: Optional[Dict[str, Any]]) -> Judgement:
+        if case["f"] == "prepeptide":
+            assert drv is not None
+            return self.judge_prepeptide(case, obs, drv)
+        if case["f"] == "qualtext":
+            assert drv is not None
+            return self.judge_qualtext(case, obs, drv)
+        if case["f"] == "dom":
+            if drv is None:
+                return self.judge_dom(case, obs, {})
+            return self.judge_dom(case, obs, drv)
         if "skip" in obs:
             return Judgement(True, True, in_scope=False, tags=("skipped:" + obs["skip"],))
         if "err" in obs:
@@ -927,6 +1479,7 @@ class C10(Property):
         # ---- spec on the implementation's outputs
         bad = [k for k in ("spec_gb", "spec_json") if drv.get(k) is not True]
         bad += [k for k in ("text_fixed", "json_fixed", "seq_same", "topology_same", "id_same") if not obs[k]]
+        bad += [f"record data after {path}: {obs[k]}" for k, path in (("meta_gb", "GenBank"), ("meta_json", "JSON")) if obs[k]]
         # every attribute of every feature that is not an area (the classes the model treats as opaque
         # qualifier text), incl. the operator of compound locations and the parts of prepeptides
         diff_gb = attrs_diff(state["attrs"], obs["re_gb"]["attrs"], textual=True)
@@ -977,7 +1530,7 @@ class C10(Property):
         if not spec_ok and not (drv["swo"] and drv["sorted"]):
             # the recorded class: the feature ordering is inconsistent on this record (see known_findings.json)
             known = KF_ORDER
-        elif not spec_ok and not other_bad:
+        elif not spec_ok and (not other_bad or other_bad == ["text_fixed"]):
             known = self._known_class(case, obs)
         return Judgement(corr, spec_ok, in_scope=scope, known=known, nontrivial=nontrivial, tags=tuple(sorted(set(tags))),
                          detail=detail[:1500])
@@ -986,38 +1539,65 @@ class C10(Property):
     def _known_class(case: Dict[str, Any], obs: Dict[str, Any]) -> Optional[str]:
         """the recorded attribute-level findings (known_findings.json); a case belongs to one of them only when,
         apart from exactly what the finding describes, no attribute of any feature differs"""
-        strands = {q[1][0]: f["loc"]["parts"][0][2] for f in case.get("input", []) if f["type"] == "CDS"
-                   for q in f["quals"] if q[0] == "locus_tag"}
-        reverse_pre = any(strands.get(p["cds"]) == -1 for p in case.get("prepeptides", []))
-        colon = any(product is None and ": " in desc for a in case.get("annot", []) for _f, _t, desc, product in a["functions"])
+        has_pre = bool(case.get("prepeptides"))
+        # a qualifier line holds 58 characters: /name="value" is split (at no space: anywhere) beyond that
+        long_pre = any(len(p["leader"]) > 40 or len(p["core"]) > 42 or len(p["tail"]) > 42 for p in case.get("prepeptides", []))
+        colon = any(product is None and ":" in desc for a in case.get("annot", []) for _f, _t, desc, product in a["functions"])
 
-        def blur(obj: Any, pre: bool, func: bool) -> Any:
+        def fixed(value: Any, fmt: str) -> Any:
+            return float(format(value, fmt)) if isinstance(value, float) else value
+
+        def lossy(obj: Any) -> bool:
             if isinstance(obj, list):
-                return [blur(x, pre, func) for x in obj]
+                return any(lossy(x) for x in obj)
+            if not isinstance(obj, dict):
+                return False
+            return blur(obj, (False, False, False, True)) != obj
+        Flags = Tuple[bool, bool, bool, bool]
+
+        def blur(obj: Any, flags: Flags) -> Any:
+            parts, func, spaces, numbers = flags
+            if isinstance(obj, list):
+                return [blur(x, flags) for x in obj]
             if not isinstance(obj, dict):
                 return obj
-            if pre and obj.get("cls") == "Prepeptide" and obj["@loc"]["parts"][0][2] == -1:
-                lo = min(p[0] for p in obj["@loc"]["parts"])
-                hi = max(p[1] for p in obj["@loc"]["parts"])
-                obj = dict(obj, **{"@loc": [lo, hi]})
+            if numbers and "_evalue" in obj:
+                obj = dict(obj, _evalue=fixed(obj["_evalue"], ".2E"))
+            if obj.get("cls") == "Prepeptide":
+                if parts:
+                    # the same bases in the same transcription order, whatever the cut into parts
+                    obj = dict(obj, **{"@loc": merge_in_transcription_order(obj["@loc"]["parts"])})
+                if spaces:
+                    obj = dict(obj, **{k: obj[k].replace(" ", "") for k in ("_leader", "_core", "_tail")})
+                if numbers:
+                    obj = dict(obj, _score=fixed(obj["_score"], ".2f"), monoisotopic_mass=fixed(obj["monoisotopic_mass"], ".1f"),
+                               molecular_weight=fixed(obj["molecular_weight"], ".1f"),
+                               alternative_weights=[fixed(w, ".1f") for w in obj["alternative_weights"]])
             if func and obj.get("cls") == "_GeneFunctionAnnotation":
                 text = obj["description"] if not obj["product"] else f"{obj['product']}: {obj['description']}"
-                return {"cls": obj["cls"], "function": obj["function"], "tool": obj["tool"], "text": text}
-            return {k: blur(v, pre, func) for k, v in obj.items()}
+                return {"cls": obj["cls"], "function": obj["function"], "tool": obj["tool"], "text": text.replace(" ", "")}
+            return {k: blur(v, flags) for k, v in obj.items()}
 
-        def same(pre: bool, func: bool) -> bool:
-            a = blur(obs["state"]["attrs"], pre, func)
-            return not attrs_diff(a, blur(obs["re_gb"]["attrs"], pre, func), textual=True) and \
-                not attrs_diff(a, blur(obs["re_json"]["attrs"], pre, func), textual=False)
-        if colon and same(False, True):
-            return KF_FUNCTION
-        if reverse_pre and same(True, False):
-            return KF_PREPEPTIDE
-        if colon and reverse_pre and same(True, True):
-            return KF_FUNCTION
+        def same(flags: Flags) -> bool:
+            a = blur(obs["state"]["attrs"], flags)
+            return not attrs_diff(a, blur(obs["re_gb"]["attrs"], flags), textual=True) and \
+                not attrs_diff(a, blur(obs["re_json"]["attrs"], flags), textual=False)
+        classes = [((False, True, False, False), colon, KF_FUNCTION), ((True, False, False, False), has_pre, KF_PREPEPTIDE),
+                   ((False, False, True, False), long_pre, KF_PRE_SEQUENCE),
+                   ((False, False, False, True), lossy(obs["state"]["attrs"]), KF_PRECISION)]
+        applicable = [c for c in classes if c[1]]
+        for flags, _, kf in applicable:
+            if same(flags) and (obs["text_fixed"] or flags[2]):
+                return kf
+        if len(applicable) > 1:
+            union = tuple(any(c[0][i] for c in applicable) for i in range(4))
+            if same(union) and (obs["text_fixed"] or union[2]):   # several recorded findings at once
+                return applicable[0][2]
         return None
 
     def shrink(self, case: Dict[str, Any]) -> Iterator[Dict[str, Any]]:
+        if case["f"] != "record":
+            return
         for key in ("input", "annot", "domains", "modules", "prepeptides", "generics", "subs"):
             items = case.get(key, [])
             for i in range(len(items)):
@@ -1043,9 +1623,25 @@ class C10(Property):
             yield dict(case, regions=False)
 
 
-def _reverse_prepeptide(feat: Dict[str, Any]) -> bool:
-    return feat["type"] == "CDS_motif" and feat["loc"]["parts"][0][2] == -1 and \
-        any(q[0] == "prepeptide" for q in feat["quals"])
+def _is_prepeptide(feat: Dict[str, Any]) -> bool:
+    return feat["type"] == "CDS_motif" and any(q[0] == "prepeptide" for q in feat["quals"])
+
+
+def merge_in_transcription_order(parts: List[List[Any]]) -> List[List[Any]]:
+    """parts (given in transcription order) with two consecutive ones joined when the second continues exactly
+    where the first stops: upwards on the forward strand, downwards on the reverse strand"""
+    out: List[List[Any]] = []
+    for lo, hi, strand in parts:
+        if out and out[-1][2] == strand:
+            plo, phi, _ = out[-1]
+            if strand == -1 and hi == plo:
+                out[-1] = [lo, phi, strand]
+                continue
+            if strand != -1 and lo == phi:
+                out[-1] = [plo, hi, strand]
+                continue
+        out.append([lo, hi, strand])
+    return out
 
 
 def _prune(case: Dict[str, Any]) -> None:
